@@ -304,6 +304,8 @@ def props_of(conj, sig, group):
         return ps
     if kind == 'conc':
         ps.add(sig.get('prop', 'C16')[:3])
+        if conj == 'wellformed':
+            ps.add('C03')      # an orphan is an orphan, whichever schedule produced it
         if conj == 'nopanic':
             ps.add('C13')
         return ps
